@@ -5,7 +5,7 @@
 From Coq Require Import Extraction ExtrOcamlBasic NArith ZArith List String.
 From FitV Require Import Model.Values Model.Crc Spec.CrcSpec Model.Bytes Model.Base Model.Profile
   Model.Reflect Model.IO Model.Header Model.Components Model.Route Model.Decode.
-From FitV Require Import Gen.RoutingData Gen.ProfileData.
+From FitV Require Import Gen.RoutingData Gen.ProfileData Spec.ProfileWf.
 
 Extraction Language OCaml.
 Extraction "fitmodel.ml"
@@ -18,4 +18,5 @@ Extraction "fitmodel.ml"
   Components.expand_components Components.g_init Components.accumulate Components.new_accum
   Header.header_marshal Header.header_check_integrity Header.new_header
   Profile.mesg_all_invalid Profile.get_field Profile.known_msg
-  RoutingData.accessors.
+  RoutingData.accessors
+  ProfileWf.profile_wf ProfileWf.profile_wf_report ProfileWf.gotype_of_fit ProfileWf.invalid_of_fit.
